@@ -91,7 +91,7 @@ PROPS = {
     },
     "C03": {
         "rules": [FS.r_pairing, FS.r_delegation, only(L.r_reset, {"FlatStack"}), only(L.r_clone, FS_ONLY | INDEX_ONLY),
-                  B.r_index_failstop, B.r_bound_stride_sites, A.r_freeze, A.r_foreign_writers, I.r_concat, I.r_stride_iter],
+                  B.r_index_failstop, B.r_bound_stride_sites, A.r_freeze, A.r_foreign_writers, I.r_concat, I.r_stride_iter, AL.r_reserve_hint_lower],
         "thorough": [X.witness("C03")],
         "explanation": "FlatStack's pairing of region indices with the index container and its delegation table are checked on the MIR for every R and S.",
         "decided": [
@@ -100,12 +100,12 @@ PROPS = {
             "R-RESET, R-CLONE for FlatStack, its Iter and the index containers a stack stores its indices in (a hand-written clone/clone_from must copy every field on every path)",
             "R-ITER: every method of the concatenating index iterators other than next (nth/fold/last overrides) consumes the second part only once the first is exhausted",
             "R-BOUND: every IndexContainer::index impl ends in a bounds-checked or strictly guarded access (get(i) is fail-stop)",
-        ],
+            "R-RESERVE-ITEMS (size_hint): extend/from_iter reserve from the iterator's lower bound only (the upper bound of a lazily terminated iterator can be usize::MAX: reserving it panics with capacity overflow although the sequence is short)"],
         "not_decided": ["equality of yielded values (C01/C05)", COMMON_ND],
     },
     "C04": {
         "rules": [S.r_unsafe, S.r_strwrite, only(BR.r_bracket, {"OwnedRegion", "ConsecutiveIndexPairs"}),
-                  BR.r_reader_writer, CD.r_tags, CD.r_bitmap, CD.r_literal_guard, L.r_clone],
+                  BR.r_reader_writer, CD.r_tags, CD.r_bitmap, CD.r_literal_guard, L.r_clone, A.r_freeze, A.r_foreign_writers, L.r_reserve_only],
         "thorough": [X.witness("C04")],
         "explanation": "Program-text property: inventory of unchecked str constructions and of everything that can write StringRegion's byte region, over the type-checked crate.",
         "decided": [
@@ -114,7 +114,7 @@ PROPS = {
             "compile-fail witnesses: pushing byte types into a StringRegion does not type-check",
             "byte offsets are push boundaries: R-BRACKET for OwnedRegion and ConsecutiveIndexPairs, R-READER for every bracket-indexed index(); dictionary reader/writer tables agree (R-TAGS/R-BITMAP/R-GUARD), so a decoded entry is a whole pushed string",
             "R-CLONE: hand-written clone/clone_from of every region and offset container copy every field on every path (a copy with stale offsets would cut a string in the middle of a character)",
-        ],
+            "R-GUARD / R-RESERVE-ONLY: the offset containers behind ConsecutiveIndexPairs keep push order (a re-ordered offset cuts a string inside a character), and reserve paths never replace a codec or storage that already holds strings"],
         "not_decided": ["that the inner byte region returns exactly the pushed byte range (C01/C02 clauses)", "deserialising foreign data"],
     },
     "C05": {
@@ -144,7 +144,7 @@ PROPS = {
             "R-DESCENT: in Decoder::next (helpers inlined) every table lookup that can run after a descent into a nested table indexes the descended table variable, never the root table alone",
             "R-TAIL: every panic of Decoder::next is dominated by a still-valid test that undecoded bits remain (an item whose input is used up ends the iteration in every arm of the end-of-input match; found the >= 512-symbol / empty-alphabet decode panic, fixed in /repo)",
         ],
-        "not_decided": ["exact decode at every bit alignment, code optimality, >= 1 bit per symbol (the single-symbol alphabet hangs/panics: observed, not decidable here), > 256 symbols", COMMON_ND],
+        "not_decided": ["exact decode at every bit alignment (bit arithmetic of BitIterator / Encoder / Decoder: seeded change C06_e1, a BitIterator that over-reads an item lying strictly inside one byte, is not detected), code optimality, >= 1 bit per symbol (the single-symbol alphabet hangs/panics: observed, not decidable here)", COMMON_ND],
     },
     "C07": {
         "rules": [CD.r_literal_guard, CD.r_emptiness, CD.r_tags, CD.r_bitmap, CD.r_stats,
@@ -159,7 +159,7 @@ PROPS = {
             "dictionary hit stores exactly the tag byte; CodecRegion::clear resets the codec; merge_regions builds it via Codec::new_from",
             "R-DEDUP: a Vec::dedup_by closure that merges duplicates writes into the element dedup_by keeps (its second parameter); zero instances on the pinned tree, exercised by seeded change C07_c1",
         ],
-        "not_decided": ["heavy-hitter selection quality, Misra-Gries arithmetic", COMMON_ND],
+        "not_decided": ["heavy-hitter selection quality, Misra-Gries arithmetic (seeded change C07_e2, a merged summary seeded from a clone of the first source whose capacity is too small, is not detected)", COMMON_ND],
     },
     "C08": {
         "rules": [L.r_reset, L.r_seed, todo({"clear"})],
@@ -256,7 +256,7 @@ PROPS = {
         "decided": ["R-GUARD: the cheap representation is attempted whenever the expensive one is still empty, and the first spill happens only after that attempt failed",
                     "type inventory: Stride has only usize fields; IndexList stores u32 in S and u64 in L",
                     "R-NOHEAP: the spill list gets no capacity before something spilled", "dense outward indices of ConsecutiveIndexPairs (R-BRACKET/R-SEED) keep FlatStack's own indices strided"],
-        "not_decided": ["that Stride::push accepts every strided/saturated sequence (value-level)"],
+        "not_decided": ["that Stride::push accepts every strided/saturated sequence (value-level; seeded change C19_e1, which rejects the repeated last element when the next step would overflow, is reported by C05's R-OVF only)"],
     },
     "C20": {
         "rules": [FW.r_forward, FW.r_sibling, FW.r_pushstorage, A.r_freeze, A.r_foreign_writers, A.r_reject_stored],
